@@ -364,7 +364,7 @@ def unit_rollback(cls, path):
     if not temp_possible:
         # this calculator never registers a temporary variable: the two temporary lists are empty whenever _rollback runs
         pre.append("__CPROVER_requires(L_TempIn.n == 0 && L_TempOut.n == 0)")
-    contract = "\n".join(pre + ["__CPROVER_assigns(L_PermIn, L_TempIn, L_PermOut, L_TempOut, DBIN, DBOUT)"] + ens)
+    contract = "\n".join(pre + ["__CPROVER_assigns(L_PermIn, L_TempIn, L_PermOut, L_TempOut, DBIN, DBOUT, g_deleted_by_colidx_in, g_deleted_by_colidx_out)"] + ens)
     f = Fn("%s::_rollback" % cls, path, r"^void %s::_rollback\(\)\s*$" % cls, csig="void %s_rollback(void)" % cls, contract=contract)
     h = """
 void vf_harness(void)
